@@ -33,6 +33,7 @@ import (
 	"github.com/prometheus/alertmanager/silence"
 	pb "github.com/prometheus/alertmanager/silence/silencepb"
 
+	"verifharness/appsys"
 	"verifharness/vh"
 )
 
@@ -1418,6 +1419,11 @@ func nearLimitCases(t *testing.T) []Case {
 func TestCheck(t *testing.T) {
 	env := vh.GetEnv()
 	run := vh.NewRun(env, "AM.Run.C12Run")
+	// app engine: the REAL application wiring (package app) in real time, in its own process; reports through run.
+	// true = the replay file held an app-engine case and has been handled.
+	if appsys.Part(t, env, run, "C12") {
+		return
+	}
 	ext := extTable(t)
 	run.Imports = append(run.Imports, "Definition ext0 : ext_table := "+ext+".")
 	finish := func(c *Case, term string, viol []vh.Violation, tags map[string]int) {
